@@ -20,7 +20,14 @@ RULE = (
     "the parameters) x control variate (none, table, linear; "
     "its mean handed in as a differentiable function of the parameters) x mc_samples in {1,2} (thorough: 3) x "
     "is_log x estimator (direct, importance sampling with density != proposal incl. unnormalised densities, "
-    "enumeration). For each configuration the explorer answers every torch.bernoulli / torch.multinomial call "
+    "enumeration). Shared-object configurations: importance sampling with density IS proposal (the same Python "
+    "object) and with two distribution objects over one parameter tensor; one distribution object (and one "
+    "control-variate-mean tensor) used by 2 estimator calls in a row (direct->is, is->direct, same estimator "
+    "called twice), gradients taken after the last call; parameter tensor shared by proposal and function. "
+    "Functions / control variates that hand back the sample itself or a view of it (identity, no-op .to(), "
+    "slice, squeeze) x control variate (none, table, linear, view) x is_log x validate_args on/off. Every "
+    "func/cv callback is wrapped: tensors handed to it and produced by it must be bit-identical after the "
+    "estimator returns, and a result kept from an earlier call must be unchanged after a later call. For each configuration the explorer answers every torch.bernoulli / torch.multinomial call "
     "with every positive-probability outcome; E[value] and E[grad] are the probability-weighted sums over all "
     "leaves (in log mode of exp(value)). Metropolis-Hastings: proposal == target, every draw and every uniform "
     "menu value incl. 0 and 1-2^-24, drawn and handed-in starting point. Relaxation estimators: uniform noise "
@@ -41,6 +48,10 @@ ASSUMPTIONS = [
     "functions and control variates are chosen so that f - c + mu_c > 0 on every path (log of a negative estimate "
     "is clamped by design)",
     "importance sampling: self_normalize=False (the self-normalised estimate is documented as biased)",
+    "an estimator owns neither the sample it hands to func/cv nor the tensors they return: writing into them is "
+    "reported (symptom callback-tensor-modified) even where value and gradient happen to stay exact",
+    "view-returning functions are exercised on float samples only (Bernoulli, OneHotCategorical, SRSWOR); a "
+    "Categorical sample is an integer tensor and cannot be the function value",
     "relaxation estimators: value only; midpoint product grids need the Bernoulli probability on a cell edge; the "
     "library's REBAR control variate is integrated with K=100/200 and one Richardson step; for arbitrary "
     "probabilities and for the categorical relaxation the nodes are images of a midpoint grid under the "
@@ -160,6 +171,66 @@ def configs(tier, seed):
                     for f in fs + ([dict(fs[0], dep=0.1)] if ps["kind"] != "srswor" else []):
                         out.append((1, {"fam": "tree", "est": "enum", "prop": ps, "f": f, "is_log": is_log,
                                         "dtype": dtype}))
+    # ---- configurations in which arguments share objects ------------------------------------------
+    # (a) importance sampling with density IS proposal (one Python object) and with two objects over
+    #     one parameter tensor; (b) one distribution object (and one cv-mean tensor) used by several
+    #     estimator calls in a row; (c) parameter tensor shared by proposal and function = the 'dep'
+    #     function variant above.
+    for pi, ps in enumerate(props):
+        if ps.get("const"):
+            continue
+        S = _support_size(ps)
+        for is_log in (False, True):
+            rng = T.rng_for(seed, "fn", pi, is_log)
+            fs = _fspecs(ps, rng, is_log, "f")
+            cvs = _fspecs(ps, rng, is_log, "cv")
+            flist = [fs[0]] + ([dict(fs[0], dep=0.1)] if ps["kind"] != "srswor" else [fs[1]])
+            for N in Ns:
+                if S ** N > (70 if tier == "quick" else 600):
+                    continue
+                for share in (("object", "param") if ps["kind"] != "srswor" else ("object",)):
+                    for f in flist:
+                        out.append((S ** N, {"fam": "tree", "est": "is", "share": share, "prop": ps, "f": f, "N": N,
+                                             "is_log": is_log, "dtype": "float32"}))
+            if S <= (4 if tier == "quick" else 8):
+                for order in (["direct", "is"], ["is", "direct"], ["direct", "again"], ["is", "again"]):
+                    out.append((S ** len(order), {"fam": "seq", "order": order, "prop": ps, "f": fs[0], "cv": cvs[1],
+                                                  "N": 1, "is_log": is_log, "dtype": "float32"}))
+    # ---- functions that hand back the sample itself or a view of it ---------------------------------
+    view_props = []
+    for ps in props:
+        k, n = ps["kind"], len(ps.get("theta", []))
+        if ps.get("const"):
+            continue
+        if k == "bern_elem":
+            view_props.append((ps, ("identity", "to")))
+        elif k == "bern_joint" and n == 1:
+            view_props.append((ps, ("squeeze", "slice")))
+        elif (k == "bern_joint" and n == 2) or (k == "onehot" and n == 2) or (k == "srswor" and (ps["T"], ps["L"]) == (3, 1)):
+            view_props.append((ps, ("slice",)))
+    if tier == "quick":
+        view_props = [vp for i, vp in enumerate(view_props) if vp[0].get("par", "logits") == "logits" or vp[0]["kind"] == "bern_elem"]
+    for pi, (ps, hows) in enumerate(view_props):
+        S = _support_size(ps)
+        for validate in (True, False):
+            psv = dict(ps, validate=validate)
+            for is_log in (False, True):
+                rng = T.rng_for(seed, "viewcv", pi, is_log)
+                cvs = _fspecs(ps, rng, is_log, "cv")
+                ftab = _fspecs(ps, rng, is_log, "f")[0]
+                for N in (1, 2):
+                    if S ** N > 64:
+                        continue
+                    for how in hows:
+                        fview = {"kind": "view", "how": how}
+                        pairs = [(fview, None), (fview, cvs[1]), (fview, cvs[2]), (fview, fview)]
+                        if not is_log:
+                            pairs.append((ftab, fview))  # the control variate hands back a view
+                        for f, cv in pairs:
+                            out.append((S ** N, {"fam": "tree", "est": "direct", "prop": psv, "f": f, "cv": cv, "N": N,
+                                                 "is_log": is_log, "dtype": "float32"}))
+                        out.append((S ** N, {"fam": "tree", "est": "is", "share": "object", "prop": psv, "f": fview,
+                                             "N": N, "is_log": is_log, "dtype": "float32"}))
     # ---- Metropolis-Hastings -----------------------------------------------------------------
     imh_props = [(p, "quick" if tier == "quick" else "full") for p in props
                  if (p["kind"], len(p.get("theta", []))) in (("bern_joint", 1), ("bern_joint", 2), ("cat", 3), ("onehot", 2))
@@ -309,6 +380,7 @@ def _assign(tier, seed):
 
 RUNNERS = {
     "tree": T.run_tree,
+    "seq": T.run_seq,
     "imh": T.run_imh,
     "relax_grid": R.run_relax_grid,
     "relax_region": R.run_relax_region,
